@@ -135,6 +135,9 @@ impl Prop for C15 {
     fn jobs(&self) -> usize {
         8
     }
+    fn stall_limit_s(&self, _tier: Tier) -> u64 {
+        1200
+    }
     fn budget_s(&self, tier: Tier) -> u64 {
         match tier {
             Tier::Quick => 120,
